@@ -449,7 +449,7 @@ func WorkerMain(prop, tier string, seed int64, shard, nshards int, skip []int64,
 	}
 	wd := e.CaseWatchdog
 	if wd == 0 {
-		wd = 10 * time.Second
+		wd = 30 * time.Second
 	}
 	c.watchdog(wd)
 	e.Gen(c)
